@@ -36,6 +36,7 @@ RULE = (
     'mutable or produced by a factory, and sharing.'
 )
 RULE += (' ' + 'Also generated: a callable with a required positional-only parameter followed by defaulted positional-only ones (po3).')
+RULE += (' ' + 'Rounds 2-5: unset TaggedValues in containers (the transformation must succeed, the result fails to build alike); po3; prefix-named sibling parameter; several nodes leaving one mutable default unset; nested mutable default.')
 ASSUMPTIONS = [
     'a dataclass default_factory is not a "default value": it need not (and cannot) be materialized',
     'inputs whose own build raises are skipped (nothing to preserve), except when a TaggedValue without a value makes it fail: there the transformation must succeed and the result must fail to build with the same exception class',
